@@ -67,8 +67,17 @@ ENERGY_PATH = ["seqm/basics.py", "seqm/Molecule.py", "seqm/ElectronicStructure.p
                "seqm/seqm_functions/fock.py", "seqm/seqm_functions/fock_u_batch.py", "seqm/seqm_functions/cal_par.py", "seqm/seqm_functions/parameters.py"]
 
 
-def _is_breaker(call: ast.Call):
+def _is_breaker(call: ast.Call, mod=None):
     cn = call_name(call) or ""
+    if mod is not None and cn in ("torch.tensor", "float", "np.array", "numpy.array", "np.asarray") and call.args and isinstance(call.args[0], ast.Name):
+        # a module-level literal constant re-wrapped as a tensor carries no graph
+        gv = getattr(mod, "globals", {}).get(call.args[0].id)
+        if gv is not None:
+            try:
+                ast.literal_eval(gv)
+                return None
+            except (ValueError, SyntaxError, TypeError):
+                pass
     if cn in ("copy.deepcopy", "deepcopy", "copy.copy"):
         return cn
     if isinstance(call.func, ast.Attribute) and call.func.attr in BREAKERS_ATTR and not call.args:
@@ -273,7 +282,7 @@ def run(ctx):
                 if m.enclosing_function(n) is not f and n is not f:
                     continue
                 if isinstance(n, ast.Call):
-                    b = _is_breaker(n)
+                    b = _is_breaker(n, m)
                     if b:
                         sites.append((n, b))
                 elif isinstance(n, ast.Attribute) and n.attr == "data" and isinstance(n.ctx, ast.Load) and not isinstance(m.parents.get(n), ast.Call):
